@@ -99,6 +99,8 @@ const SAMPLE_CAP: usize = 10;
 pub struct Stats {
   pub evals: u64,
   pub nontrivial: HashSet<u64>,
+  /// non-trivial cases that are distinct by construction (exhaustive enumerations): counted, not hashed
+  pub nontrivial_enum: u64,
   pub counters: BTreeMap<String, u64>,
   pub excluded: BTreeMap<String, u64>,
   pub crash: BTreeMap<String, u64>,
@@ -145,6 +147,15 @@ impl Stats {
       *self.crash.entry(k.to_string()).or_insert(0) += 1;
     }
   }
+  /// Count a non-trivial case of an enumeration (distinct by construction).
+  pub fn nontrivial_enumerated(&mut self) {
+    if !self.frozen {
+      self.nontrivial_enum += 1;
+    }
+  }
+  pub fn nontrivial_total(&self) -> u64 {
+    self.nontrivial.len() as u64 + self.nontrivial_enum
+  }
   /// Register a non-trivial case by its identity; returns true when it is new.
   pub fn nontrivial<T: Hash + ?Sized>(&mut self, key: &T) -> bool {
     if self.frozen {
@@ -170,6 +181,7 @@ impl Stats {
   pub fn merge(&mut self, o: Stats) {
     self.evals += o.evals;
     self.nontrivial.extend(o.nontrivial);
+    self.nontrivial_enum += o.nontrivial_enum;
     for (k, v) in o.counters {
       *self.counters.entry(k).or_insert(0) += v;
     }
@@ -329,7 +341,7 @@ where
     "{}: {} evals, {} distinct non-trivial, {:.1}s{}",
     name,
     stats.evals,
-    stats.nontrivial.len(),
+    stats.nontrivial_total(),
     dt,
     if ok { "" } else { "  ** FAILED **" }
   ));
@@ -407,7 +419,7 @@ where
     "{}: {} evals, {} distinct non-trivial, {:.1}s{}",
     name,
     stats.evals,
-    stats.nontrivial.len(),
+    stats.nontrivial_total(),
     t0.elapsed().as_secs_f64(),
     if ok { "" } else { "  ** FAILED **" }
   ));
